@@ -27,7 +27,7 @@ ASSUMPTIONS = ["Python json / float repr round-trips floats exactly; mesh format
 FLOORS = {'quick': {'json': 300, 'smesh': 60, 'vmesh': 40, 'txt': 150, 'csv': 80, 'file-layout': 200, 'reimport-eval': 1500,
                     'trims': 40, 'container': 40},
           'thorough': {'json': 3000, 'reimport-eval': 15000}}
-MANDATORY_TAGS = ['trims:own-sampling-density', 'curve', 'surface', 'volume', 'rational', 'nonrational', 'container', 'container:ten-or-more', 'fmt:txt-volume', 'unnormalized:inside-unit-interval', 'unnormalized:some-directions-on-unit-interval', 'trims', 'fmt:json', 'fmt:smesh', 'fmt:vmesh',
+MANDATORY_TAGS = ['trims:sense-0-explicit', 'trims:own-sampling-density', 'curve', 'surface', 'volume', 'rational', 'nonrational', 'container', 'container:ten-or-more', 'fmt:txt-volume', 'unnormalized:inside-unit-interval', 'unnormalized:some-directions-on-unit-interval', 'trims', 'fmt:json', 'fmt:smesh', 'fmt:vmesh',
                   'fmt:txt1d', 'fmt:txt2d', 'fmt:csv', 'unnormalized']
 TECHNIQUE = ("runtime monitoring: round-trip oracle on every export/import pair (structural equality within printed precision + "
              "exact reference evaluation of the re-imported shape) and an independent harness-side parser of the written files")
@@ -161,7 +161,14 @@ def check(case, ctx):
         c2.degree = 2
         c2.ctrlpts = M([[0.2, 0.2], [0.8, 0.2], [0.5, 0.8], [0.2, 0.2]])
         c2.knotvector = knotvector.generate(2, 4)
-        c2.opt = ['reversed', 1]
+        # (round 10) the sense is 1, an explicit 0 (which is not "no sense given": the trimming module assigns one to those) or absent
+        sense2 = rng.choice([1, 0, 0, None])
+        if sense2 is not None:
+            c2.opt = ['reversed', sense2]
+        if sense2 == 0:
+            ctx.tag('trims:sense-0-explicit')
+        if rng.random() < 0.5:
+            ff.opt = ['reversed', rng.choice([0, 1])]
         c3 = BSpline.Curve()
         c3.degree = 1
         c3.ctrlpts = M([[0.1, 0.1], [0.4, 0.1], [0.1, 0.4], [0.1, 0.1]])
@@ -215,7 +222,8 @@ def check(case, ctx):
                       what='trims')
             if ok:
                 for a, b in zip(trims, rt):
-                    ctx.check(a.opt_get('reversed') == b.opt_get('reversed'), 'json/trim-sense', 'trim sense flag lost', what='trims')
+                    ctx.check(a.opt_get('reversed') == b.opt_get('reversed'), 'json/trim-sense', 'trim sense flag of a %s trim exported as %r comes back as %r'
+                              % (a.type, a.opt_get('reversed'), b.opt_get('reversed')), what='trims')
                     ctx.check(len(a.evalpts) == len(b.evalpts), 'json/trim-sampling-density', 'a %s trim sampled with %d points comes back sampled '
                               'with %d points (the trimmed tessellation uses these points)' % (a.type, len(a.evalpts), len(b.evalpts)), what='trims')
                     if a.type == 'freeform':
